@@ -255,7 +255,9 @@ def run_list(ctx, method):
 
 
 def make_dataset(rng, balanced, n_cond=None, reps=None, p=None):
-    n_cond = n_cond or int(rng.integers(2, 8))
+    # (a single condition measured several times is a legitimate balanced design: the residuals are the deviations
+    # from the overall mean)
+    n_cond = n_cond or int(rng.integers(1 if balanced else 2, 8))
     p = p or int(rng.integers(1, 8))
     if balanced:
         reps = reps or int(rng.integers(2, 7))
